@@ -99,6 +99,10 @@ func TestVerifFindMissing(t *testing.T) {
 				items = append(items, item{tok: "E", dg: &pb.Digest{Hash: emptySha256, SizeBytes: 0}})
 				continue
 			}
+			if rng.Pct(4) { // the empty blob's hash with a non-zero size is an ordinary (absent) digest
+				items = append(items, item{tok: "E", dg: &pb.Digest{Hash: emptySha256, SizeBytes: int64(1 + rng.Intn(9))}})
+				continue
+			}
 			data := rng.Bytes(1 + rng.Intn(3000))
 			d := &pb.Digest{Hash: vHash(data), SizeBytes: int64(len(data))}
 			it := item{tok: tok, dg: d}
@@ -128,7 +132,7 @@ func TestVerifFindMissing(t *testing.T) {
 		for _, it := range items {
 			req = append(req, &pb.Digest{Hash: it.dg.Hash, SizeBytes: it.dg.SizeBytes})
 			spec = append(spec, fmt.Sprintf("%s:%d:%d:%d", it.tok, it.dg.SizeBytes, it.local, b2i(it.prox && px != nil)))
-			missing := it.tok != "E" && it.local != 1 && !(px != nil && it.prox && it.dg.SizeBytes <= maxProxy)
+			missing := !(it.tok == "E" && it.dg.SizeBytes == 0) && it.local != 1 && !(px != nil && it.prox && it.dg.SizeBytes <= maxProxy)
 			if missing {
 				want = append(want, it.tok)
 				anyMissing = true
